@@ -266,11 +266,13 @@ def oracle_self_death(pre, ob):
 
 # ---------------------------------------------------------------- parent histories
 def gen_history(rnd):
-    ops, outstanding, closed = [], 0, False
+    ops, outstanding, closed, died = [], 0, False, False
     for _ in range(rnd.randint(1, 9)):
         r = rnd.random()
         e = ([rnd.randint(0, 99) for _ in range(rnd.randint(0, 3))], [])
-        if r < 0.4:
+        if r < 0.07 and not died:
+            ops.append(('die',)); closed = died = True     # an input on which the target raises: the worker dies on its own
+        elif r < 0.4:
             ops.append(('enq', e))
             if not closed:
                 outstanding += 1
@@ -320,6 +322,13 @@ def _run_history(kind, d, dk, ops, host, holder, obs):
                     obs.append('OEmpty')
             elif op[0] == 'close':
                 w.close(); obs.append('OOk')
+            elif op[0] == 'die':
+                try:
+                    w.enqueue(box(FATAL)); obs.append('OOk')
+                except WorkerClosedError:
+                    obs.append('OClosedErr'); continue
+                if not wait_dead_without_asking(w, 20):
+                    obs[-1] = 'OWouldBlock'      # the worker did not die of the failing input
             else:
                 ok = w.wait(20)
                 obs.append(f'OResult {w.result}%nat' if ok and not w.has_error else 'OEmpty')
@@ -331,7 +340,7 @@ def _run_history(kind, d, dk, ops, host, holder, obs):
     return obs
 
 
-def hist_term(d, dk, ops, obs):
+def hist_term(kind, d, dk, ops, obs):
     cops = []
     for op in ops:
         if op[0] == 'enq':
@@ -339,14 +348,15 @@ def hist_term(d, dk, ops, obs):
         elif op[0] == 'call':
             cops.append('PCall (' + coq_enq(*op[1]) + ')')
         else:
-            cops.append({'next': 'PNext', 'close': 'PClose', 'wait': 'PWait'}[op[0]])
-    return (f'check_parent [{"; ".join(map(str, d))}] [{"; ".join(f"({n}, {v})" for n, v in dk)}] '
+            cops.append({'next': 'PNext', 'close': 'PClose', 'wait': 'PWait', 'die': 'PDie'}[op[0]])
+    K = {'thread': 'KThread', 'process': 'KProcess', 'remote': 'KRemote'}[kind]
+    return (f'check_parent {K} [{"; ".join(map(str, d))}] [{"; ".join(f"({n}, {v})" for n, v in dk)}] '
             f'[{"; ".join(cops)}] [{"; ".join(obs)}]')
 
 
 def oracle_history(d, dk, ops, obs):
     """C05 read directly: values come out in enqueue order, once each; enqueue after close raises."""
-    accepted, delivered, closed = [], [], False
+    accepted, delivered, closed, failed = [], [], False, False
     if obs and obs[-1] == 'OBlocked':
         k = len(obs) - 1
         return f'operation {k} ({ops[k][0] if k < len(ops) else "clean-up"}) of the history did not return within {BLOCK_S} s (the histories only contain calls that must not block)'
@@ -354,15 +364,23 @@ def oracle_history(d, dk, ops, obs):
         if op[0] in ('enq', 'call'):
             if closed:
                 if ob != 'OClosedErr':
-                    return f'{op[0]} after close()/wait() did not raise WorkerClosedError (observed {ob})'
+                    return f'{op[0]} after close()/wait()/death did not raise WorkerClosedError (observed {ob})'
                 continue
             accepted.append(op[1])
+        if op[0] == 'die':
+            if closed:
+                if ob != 'OClosedErr':
+                    return f'enqueue after close()/wait()/death did not raise WorkerClosedError (observed {ob})'
+                continue
+            if ob != 'OOk':
+                return f'the worker was given an input on which its target raises and {"did not die of it within 20 s" if ob == "OWouldBlock" else "answered " + ob}'
+            closed = failed = True
         if op[0] in ('close', 'wait'):
             closed = True
         if ob.startswith('OVal'):
             delivered.append(int(ob.split()[1]))
-        if op[0] == 'wait' and ob != f'OResult {len(accepted)}%nat':
-            return f'after wait() result is {ob}, expected {len(accepted)}'
+        if op[0] == 'wait' and ob != (f'OResult {len(accepted)}%nat' if not failed else 'OEmpty'):
+            return f'after wait() result is {ob}, expected {len(accepted) if not failed else "the error of the target"}'
     exp = expected_values(dict(d=d, dk=dk, es=accepted))
     if delivered != exp[:len(delivered)]:
         return f'delivered values {delivered} are not the first results {exp} of the accepted enqueues, in order'
@@ -429,7 +447,9 @@ def main(tier, seed, replay=None):
             e1, e2 = ([1], []), ([2, 3], [])
             systematic = [[('close',), ('enq', e1)], [('enq', e1), ('close',), ('enq', e2), ('next',), ('next',)],
                           [('wait',), ('enq', e1)], [('enq', e1), ('enq', e2), ('next',), ('wait',), ('next',), ('next',)],
-                          [('call', e1), ('call', e2), ('close',), ('call', e1)]]
+                          [('call', e1), ('call', e2), ('close',), ('call', e1)],
+                          [('die',), ('enq', e1)], [('enq', e1), ('enq', e2), ('die',), ('enq', e1), ('next',), ('next',), ('next',), ('wait',)],
+                          [('call', e1), ('die',), ('call', e2), ('wait',), ('enq', e1)], [('enq', e1), ('die',), ('next',), ('enq', e2), ('close',), ('die',)]]
             nrand = (150 if kind == 'thread' else 6) if tier == 'quick' else (800 if kind == 'thread' else 40)
             for hi in range(len(systematic) + nrand):
                 d = [rnd.randint(0, 99) for _ in range(rnd.randint(0, 3))]
@@ -442,7 +462,7 @@ def main(tier, seed, replay=None):
                 if why:
                     res.violation(dict(kind=kind, d=d, ops=[list(o) for o in ops]), why, observed=obs)
                 if not (obs and obs[-1] == 'OBlocked'):
-                    terms.append(hist_term(d, [], ops, obs)); keep.append((kind, dict(d=d, ops=ops), obs))
+                    terms.append(hist_term(kind, d, [], ops, obs)); keep.append((kind, dict(d=d, ops=ops), obs))
     finally:
         if server is not None:
             server.terminate(force=True)
